@@ -133,8 +133,6 @@ for n in ("RandBool", "random", "nonzerorandom", "random_between", "random_betwe
     EXCLUDED_NAMES[n] = "random generation: property C20"
 for n in ("nextprime", "prevprime", "probab_prime"):
     EXCLUDED_NAMES[n] = "primality: property C12"
-for n in ("jacobi", "legendre", "kronecker"):
-    EXCLUDED_NAMES[n] = "number-theoretic symbols: property C13"
 for n in ("ratrecon", "RationalReconstruction"):
     EXCLUDED_NAMES[n] = "rational reconstruction: property C11"
 for n in ("naturallog", "logtwo@free"):
@@ -222,7 +220,7 @@ def variants_for(scope, name, ty):
             return ["absCompare_" + ss[1]], None
         if name == "isZero":
             return ["isZero_" + ss[0]], None
-        if name in ("isOne", "isMOne", "nonZero", "isOdd", "swap", "fact", "logp", "length", "pp", "isperfectpower", "root", "invin"):
+        if name in ("isOne", "isMOne", "nonZero", "isOdd", "swap", "fact", "logp", "length", "pp", "isperfectpower", "root", "invin", "jacobi", "legendre", "kronecker"):
             return [name], None
         if name == "sign":
             return ["sign_f"], None
